@@ -262,8 +262,8 @@ def R3_no_partial_write(ctx):
     # edge plugin
     eb = F.need("<%sedge_rtree_input_plugin::EdgeRtreeInputPlugin as %s>::process" % (E, IP))
     etm = Terms(eb)
-    adds = [c for c in eb.calls() if c.func.get("method") in ("add_origin_edge", "add_destination_edge")]
-    srch = [c for c in eb.calls() if c.callee == E + "edge_rtree_input_plugin::search"]
+    adds = [c for c in eb.calls_deep() if c.func.get("method") in ("add_origin_edge", "add_destination_edge")]
+    srch = [c for c in eb.calls_deep() if c.callee == E + "edge_rtree_input_plugin::search"]
     ctx.check(len(adds) == 2 and len(srch) == 2, "edge:shape", "expected two searches and two writes", eb.where())
     for c in adds:
         role = "origin" if "origin" in c.func["method"] else "destination"
@@ -272,11 +272,203 @@ def R3_no_partial_write(ctx):
         ss = [x for x in calls_in(sv) if x[1] == E + "edge_rtree_input_plugin::search"]
         okc = len(ss) == 1 and contains(ss[0][2][0], lambda s: s[0] == "call" and s[1].endswith("get_%s_coordinate" % role))
         ctx.check(okc, "edge:%s:match-of-own-coordinate" % role, "the %s edge written is not the search result of the %s coordinate" % (role, role), c.where(), detail="search(%s coord)" % role)
-        # None => Err: the value passes ok_or_else
+        # None => Err: the value passes ok_or_else, or the function holding the search returns an Err on every path where the
+        # search result is None (and that Err is propagated)
         guards = [x for x in calls_in(v) if re.search(r"Option::<T>::ok_or(_else)?$", x[1])]
-        ctx.check(bool(guards), "edge:%s:no-match=>Err" % role, "an unmatched %s coordinate is not turned into an error" % role, c.where(), detail="ok_or_else(matching_error)")
+        okn = bool(guards)
+        if not okn:
+            for sc in srch:
+                if nosite(deep_strip(etm.call_term(sc.term, sc.bb))) != (ss[0] if ss else None):
+                    continue
+                inner = sc.inner if isinstance(sc, VirtualCallSite) else sc
+                okn = none_is_err(inner.body, inner) and (not isinstance(sc, VirtualCallSite) or try_propagation(eb, sc.via, etm)["kind"] == "propagated")
+        ctx.check(okn, "edge:%s:no-match=>Err" % role, "an unmatched %s coordinate is not turned into an error" % role, c.where(), detail="ok_or_else(matching_error)")
     for c in srch:
-        ctx.check(error_flow(F, eb, c, etm)["ok"] or try_propagation(eb, c, etm)["kind"] == "propagated", "edge:search-error", "Err of the search is not propagated", c.where())
+        inner = c.inner if isinstance(c, VirtualCallSite) else c
+        ib = inner.body
+        itm_ = etm if ib is eb else Terms(ib)
+        okp = error_flow(F, ib, inner, itm_)["ok"] or try_propagation(ib, inner, itm_)["kind"] == "propagated"
+        if isinstance(c, VirtualCallSite):
+            okp = okp and try_propagation(eb, c.via, etm)["kind"] == "propagated"
+        ctx.check(okp, "edge:search-error", "Err of the search is not propagated", c.where())
+
+
+def none_is_err(body, call):
+    """every returning path of `body` on which the Option produced by `call` is None returns an Err value"""
+    tm = Terms(body)
+    st = nosite(deep_strip(tm.call_term(call.term, call.bb)))
+    seen = False
+    for r in table(body, max_paths=20000):
+        if r.end != "return":
+            continue
+        for k, v in r.sel.items():
+            if nosite(k) == st and v == "None":
+                seen = True
+                if not is_err_value(r.ret) and result_variant(r.ret) != "Err":
+                    return False
+    return seen
+
+
+def R5_configured_tolerance(ctx):
+    """C16.R5 a configured tolerance is the one enforced"""
+    F = ctx.F
+    ctx.rule("C16.R5", "both plugin constructors store tolerance = Some((distance, unit or BASE_DISTANCE_UNIT)) whenever a tolerance distance is configured (None only when none is), and both builders pass the parsed `distance_tolerance` / `distance_unit` settings in those positions", floor=8)
+    BASE = ("item", "routee_compass_core::model::unit::builders::BASE_DISTANCE_UNIT")
+    for key, tpos, upos, label in ((V + "RTreePlugin::new", 2, 3, "vertex"), (E + "edge_rtree_input_plugin::EdgeRtreeInputPlugin::new", None, None, "edge")):
+        b = F.need(key)
+        if tpos is None:
+            tys = [b.locals[i]["ty"] for i in range(1, b.argc + 1)]
+            tp = [i + 1 for i, t in enumerate(tys) if t.startswith("std::option::Option<") and "Distance>" in t and "DistanceUnit" not in t]
+            up = [i + 1 for i, t in enumerate(tys) if t.startswith("std::option::Option<") and "DistanceUnit>" in t]
+            if len(tp) != 1 or len(up) != 1:
+                raise AnchorMissing("tolerance/unit parameters of " + key)
+            tpos, upos = tp[0], up[0]
+        vals = {}
+        for tv in ("Some", "None"):
+            for uv in ("Some", "None"):
+                vals[(tv, uv)] = tolerance_under(F, b, {tpos: tv, upos: uv})
+        T, U_ = ("arg", tpos), ("arg", upos)
+        want = {("Some", "Some"): ("tuple", (T, U_)), ("Some", "None"): ("tuple", (T, BASE)), ("None", "Some"): "None", ("None", "None"): "None"}
+        for k in sorted(want):
+            ctx.check(vals[k] == want[k], "%s:new:tolerance(%s,%s)" % (label, k[0], k[1]), "with distance %s and unit %s the stored tolerance is %s" % (k[0], k[1], short(vals[k])[:120] if isinstance(vals[k], tuple) else ("undetermined" if vals[k] is None else vals[k])), b.where(), detail=short(want[k]) if isinstance(want[k], tuple) else want[k])
+    for key, callee, label in ((V.replace("plugin::", "builder::") + "VertexRTreeBuilder", V + "RTreePlugin::new", "vertex"), (E + "edge_rtree_input_plugin_builder::EdgeRtreeInputPluginBuilder", E + "edge_rtree_input_plugin::EdgeRtreeInputPlugin::new", "edge")):
+        bs = [b for p_, b in F.bodies.items() if b.kind != "closure" and any(c.callee == callee for c in b.calls_deep()) and p_ != callee]
+        bs = [b for b in bs if "Builder" in b.path]
+        if not ctx.check(len(bs) == 1, "%s:builder" % label, "expected one builder calling %s (found %d)" % (callee.split("::")[-2], len(bs)), None):
+            continue
+        b = bs[0]
+        tm = Terms(b)
+        c = [c for c in b.calls_deep() if c.callee == callee][0]
+        nb = F.need(callee)
+        tys = [nb.locals[i]["ty"] for i in range(1, nb.argc + 1)]
+        for i, a in enumerate(c.args):
+            ty = tys[i]
+            if not ty.startswith("std::option::Option<"):
+                continue
+            want_key = "distance_tolerance" if ("Distance>" in ty and "DistanceUnit" not in ty) else ("distance_unit" if "DistanceUnit>" in ty else None)
+            if want_key is None:
+                continue
+            t = nosite(deep_strip(tm.operand(a, c.bb)))
+            lits = [x[2] for x in subterms(t) if x[0] == "const" and isinstance(x[2], str)]
+            okk = t[0] == "call" and t[1].split("{")[0].endswith("get_config_serde_optional") and want_key in lits
+            ctx.check(okk, "%s:builder:%s" % (label, want_key), "the %s argument of the constructor is not the parsed `%s` setting: %s" % (want_key, want_key, short(t)[:160]), c.where(), detail="get_config_serde_optional(%s)" % want_key)
+
+
+def tolerance_under(F, b, env):
+    """the `tolerance` field of the constructed plugin when the given Option arguments have the given variants:
+    'None', a (distance, unit) tuple term, or None when it cannot be determined"""
+    # trace partitioning: switches on the variants of the known arguments only take the consistent branch
+    tm0 = Terms(b)
+    removed = set()
+    for sbb, dt, names, t in switches(b, tm0):
+        d = nosite(deep_strip(dt))
+        if d[0] != "discr" or names is None:
+            continue
+        base = d[1]
+        while base[0] == "mut":
+            base = unmut(base)
+        if base[0] == "arg" and base[1] in env:
+            keep = switch_target(t, names, env[base[1]])
+            for tgt in set([x[1] for x in t["targets"]] + [t["otherwise"]]):
+                if tgt != keep:
+                    removed.add((sbb, tgt))
+    live = set()
+    work = [0]
+    while work:
+        x = work.pop()
+        if x in live:
+            continue
+        live.add(x)
+        work += [y for y in b.succ[x] if (x, y) not in removed]
+    tm = Terms(b, edge_ok=lambda x, y: (x, y) not in removed and x in live)
+    vals = set()
+    for bb, blk in enumerate(b.blocks):
+        for pos, st in enumerate(blk["stmts"]):
+            if st["k"] == "assign" and st["rv"]["k"] == "agg" and st["rv"].get("adt", "").endswith("Plugin") and "tolerance" in (st["rv"].get("fnames") or []):
+                a = tm.rvalue(st["rv"], bb, pos)
+                vals.add(nosite(dict(a[3])["tolerance"]))
+    if len(vals) != 1:
+        return None
+    t = list(vals)[0]
+    if t[0] == "phi":
+        # the arms left after partitioning must agree
+        rs = set()
+        for a in t[1]:
+            r = eval_option(F, a, env)
+            rs.add(r if r is not None else ("?", a))
+        return list(rs)[0] if len(rs) == 1 and not (isinstance(list(rs)[0], tuple) and list(rs)[0][0] == "?") else None
+    return eval_option(F, t, env)
+
+
+def eval_option(F, t, env, depth=0):
+    """evaluate an Option-valued term under known variants of Option arguments: returns 'None' or the payload term.
+    In the payload convention Some(x) is x and the payload of an argument is the argument itself."""
+    if depth > 6:
+        return None
+    t = unmut(t) if t[0] == "mut" else t
+    if t[0] == "arg" and t[1] in env:
+        return "None" if env[t[1]] == "None" else t
+    if t[0] == "agg" and t[1].endswith("option::Option"):
+        return "None" if t[2] == "None" else eval_payload(F, agg_payload(t), env, depth + 1)
+    if t[0] == "phi":
+        return None
+    if t[0] == "call":
+        name = t[1].split("{")[0]
+        if re.search(r"Option::<T>::map$", name) and len(t[2]) == 2:
+            r = eval_option(F, t[2][0], env, depth + 1)
+            if r == "None" or r is None:
+                return r
+            cl = t[2][1]
+            if cl[0] == "closure" and cl[1] in F.bodies:
+                rt = nosite(deep_strip(Terms(F.bodies[cl[1]]).return_term()))
+                return eval_payload(F, substitute_closure(rt, cl[2], (r,)), env, depth + 1)
+            return None
+        if re.search(r"Option::<T>::zip$", name) and len(t[2]) == 2:
+            a, b_ = eval_option(F, t[2][0], env, depth + 1), eval_option(F, t[2][1], env, depth + 1)
+            if a is None or b_ is None:
+                return None
+            return "None" if "None" in (a, b_) else ("tuple", (a, b_))
+        if re.search(r"Option::<T>::(or|or_else)$", name) and len(t[2]) == 2:
+            a = eval_option(F, t[2][0], env, depth + 1)
+            if a != "None":
+                return a
+            o = t[2][1]
+            if o[0] == "closure" and o[1] in F.bodies:
+                o = substitute_closure(nosite(deep_strip(Terms(F.bodies[o[1]]).return_term())), o[2], ())
+            return eval_option(F, o, env, depth + 1)
+    return eval_payload(F, t, env, depth + 1) if t[0] in ("tuple",) else None
+
+
+def eval_payload(F, t, env, depth=0):
+    """a plain value under known variants: unwrap_or / unwrap_or_else / canonical default forms of Option arguments are decided"""
+    if depth > 8 or t is None:
+        return None
+    t = nosite(deep_strip(t))
+
+    def f(x):
+        if x[0] == "mut":
+            return f(unmut(x)) or unmut(x)
+        if x[0] == "call" and re.search(r"Option::<T>::unwrap_or(_else|_default)?$", x[1].split("{")[0]) and len(x[2]) >= 1:
+            a = eval_option(F, x[2][0], env, depth + 1)
+            if a is None:
+                return None
+            if a != "None":
+                return a
+            if len(x[2]) < 2:
+                return None
+            d = x[2][1]
+            if d[0] == "closure" and d[1] in F.bodies:
+                d = substitute_closure(nosite(deep_strip(Terms(F.bodies[d[1]]).return_term())), d[2], ())
+            return eval_payload(F, d, env, depth + 1)
+        if x[0] == "default" and len(x) == 3:
+            a = eval_option(F, x[1], env, depth + 1)
+            if a is None:
+                return None
+            return a if a != "None" else eval_payload(F, x[2], env, depth + 1)
+        return None
+    return rewrite(t, f)
+
+
 
 
 def R4_who_may_write(ctx):
@@ -319,4 +511,4 @@ def R4_who_may_write(ctx):
         ctx.check(ok and not others, "helper:%s" % m, "%s does not insert exactly (InputField::%s, its argument) into the query object" % (m, fld), b.where(), detail="insert(%s, value)" % fld)
 
 
-RULES = [R1_tolerance_units, R2_nearest_admissible, R3_no_partial_write, R4_who_may_write]
+RULES = [R1_tolerance_units, R2_nearest_admissible, R3_no_partial_write, R4_who_may_write, R5_configured_tolerance]
